@@ -462,19 +462,34 @@ def run(ctx):
         "floating-point divergence: theorems are over R; the central-difference probe bounds the float behaviour numerically",
         "anisotropic / rotated models are outside the property (the stretched field is not solenoidal)",
     ]
-    gen = C.regenerate(["Summator_gen.v"])
-    tie_broken = [("%s: %s" % (k, v)) for k, v in gen.items() if v]
-    ctx.tie["summate_incompr (summator.pyx)"] = "translated (pyx2coq), proved equal to summate_incompr_spec" if not tie_broken else "TRANSLATION FAILED"
     ctx.tie["IncomprRandMeth.__call__ (generator.py)"] = "hand model incompr_call/velocity + correspondence"
     ctx.tie["compiled summator .so"] = "execution: bitwise vs extracted spec and translated kernel"
-    proofs_ok = (not tie_broken) and ctx.proofs("props/C16.v")
-    drv = None
-    if not tie_broken:
+    # coq/gen is shared with checks running concurrently (possibly on another checkout): make sure the translation
+    # that was compiled is the one of THIS checkout's summator.pyx, else translate and build again
+    import os
+    import pyx2coq
+    tie_broken, proofs_ok, drv = [], False, None
+    for attempt in range(3):
+        gen = C.regenerate(["Summator_gen.v"])
+        tie_broken = [("%s: %s" % (k, v)) for k, v in gen.items() if v]
+        if tie_broken:
+            break
+        proofs_ok = ctx.proofs("props/C16.v")
         ok, out = C.build_driver("c16")
-        if ok:
-            drv = C.Driver("c16")
-        else:
-            tie_broken.append("extraction/driver build: " + out[-400:])
+        try:
+            mine = pyx2coq.translate(os.path.join(C.REPO, "src/gstools/field/summator.pyx"))
+            stable = open(os.path.join(C.COQ, "gen", "Summator_gen.v")).read() == mine
+        except Exception:
+            stable = True
+        if stable:
+            if ok:
+                drv = C.Driver("c16")
+            else:
+                tie_broken.append("extraction/driver build: " + out[-400:])
+            break
+        ctx.notes.append("coq/gen/Summator_gen.v was rewritten by a concurrent check during the build (attempt %d): rebuilt" % (attempt + 1))
+    ctx.tie["summate_incompr (summator.pyx)"] = ("translated (pyx2coq), proved equal to summate_incompr_spec"
+                                                  if not tie_broken else "TRANSLATION FAILED")
     import time
     try:
         stages = ([("kernel correspondence", lambda: corr_kernel(ctx, rng, drv)),
